@@ -64,6 +64,17 @@ def _increment_sites(prog, owner, field):
     return out
 
 
+def _is_take_equivalent(u):
+    """`mem::take(&mut v[i])` and `mem::replace(&mut v[i], None)` are Option::take under another name"""
+    if u.op == "index_mut>core::mem::take":
+        return True
+    if u.op == "index_mut>core::mem::replace":
+        b = u.site.body
+        os_ = origins(b, u.site.node["args"][1], transparent=())
+        return bool(os_) and all(o.kind == "agg" and o.data.get("variant") == "None" for o in os_)
+    return False
+
+
 def rule_label_ops(ctx):
     prog = ctx.prog
     r = ctx.rule(
@@ -78,7 +89,7 @@ def rule_label_ops(ctx):
     uses = _muts(prog, owner, fld)
     allowed = {"init", "alloc::vec::Vec::push", "alloc::vec::Vec::shrink_to_fit", "alloc::vec::Vec::reserve", "index_mut>core::option::Option::take"}
     for u in uses:
-        r.check(u.op in allowed, "%s.%s|%s" % (owner, fld, u.fn.path), "op=" + u.op, "%s in %s" % (u.op, u.fn.path), "forbidden operation on the label vector: %s in %s (ids must be stable and never reused)" % (u.op, u.fn.path), u.site.loc())
+        r.check(u.op in allowed or _is_take_equivalent(u), "%s.%s|%s" % (owner, fld, u.fn.path), "op=" + u.op, "%s in %s" % (u.op, u.fn.path), "forbidden operation on the label vector: %s in %s (ids must be stable and never reused)" % (u.op, u.fn.path), u.site.loc())
     pushes = [u for u in uses if u.op == "alloc::vec::Vec::push"]
     r.floor(len(pushes), 1, "push sites on the label vector")
     for u in pushes:
